@@ -246,20 +246,7 @@ func init() {
 		return func(e *Engine, st *State, fn *ssa.Function, args []Val, pos token.Pos, k Kont) {
 			tb := e.tb
 			e.Assumed["mutexes: sequential model (ghost held flag), no blocking semantics"] = true
-			m := args[0]
-			var ref *Term
-			if px, ok := m.ann("").(*PtrX); ok {
-				switch px.Kind {
-				case PField:
-					ref = tb.App("mtx_"+sanitize(typeKey(px.Root)+px.Path), SInt, px.Ref)
-				case PGlobal:
-					ref = tb.App("mtxg_"+sanitize(px.Glob.Name()+px.Path), SInt)
-				default:
-					ref = tb.Fresh("mtx_local", SInt)
-				}
-			} else {
-				ref = m.T[0]
-			}
+			ref := e.mutexRef(args[0])
 			cur, ok := st.Ghost["held"]
 			if !ok {
 				cur = tb.Const("G0!held", SArrB)
@@ -294,6 +281,22 @@ func init() {
 	for _, n := range []string{"(*sync.Mutex).TryLock", "(*polycry.pt/poly-go/sync.Mutex).TryLock", "(*polycry.pt/poly-go/sync.Mutex).TryLockCtx"} {
 		libSpecs[n] = lockOp(true, true)
 	}
+}
+
+// mutexRef names a mutex: the ghost lock state "held" is indexed by it.
+func (e *Engine) mutexRef(m Val) *Term {
+	tb := e.tb
+	if px, ok := m.ann("").(*PtrX); ok {
+		switch px.Kind {
+		case PField:
+			return tb.App("mtx_"+sanitize(typeKey(px.Root)+px.Path), SInt, px.Ref)
+		case PGlobal:
+			return tb.App("mtxg_"+sanitize(px.Glob.Name()+px.Path), SInt)
+		default:
+			return tb.Fresh("mtx_local", SInt)
+		}
+	}
+	return m.T[0]
 }
 
 // pureUF models an external function as an uninterpreted, total, non-panicking function of its (flattened) arguments.
